@@ -59,7 +59,7 @@ TRUSTED = [
 # cases
 # ------------------------------------------------------------------------------------------------
 
-def make_tasks(run: Run, tier: str, policy: str):
+def make_tasks(run: Run, tier: str, policy: str, variant: dict):
     rng = run.rng("cases")
     quick = tier == "quick"
     n_grammars = 110 if quick else 1400
@@ -96,7 +96,7 @@ def make_tasks(run: Run, tier: str, policy: str):
             add(spec, mode, tags, "shared")
     # the model's class predicate decides how long a grammar may run: a grammar inside hasEpsCycle is expected
     # to diverge (known finding), two inputs and a short cap are enough to observe that
-    comp = driver_ask("drv_earley", [{"op": "compile", "grammar": g["gj"], "cap": g["cap"]} for g in grammars])
+    comp = driver_ask("drv_earley", [{"op": "compile", "grammar": g["gj"], "cap": variant["cap"]} for g in grammars])
     tasks: list[dict] = []
     n_eps = 0
     for g, c in zip(grammars, comp):
@@ -127,6 +127,8 @@ def make_tasks(run: Run, tier: str, policy: str):
 # ------------------------------------------------------------------------------------------------
 
 BIG_FUEL = 4_000_000
+EXPLOSION_FUEL = 3_000        # model steps spent on a case the real parser did not finish within STEP_LIMIT
+N_LOCKSTEP = 14               # … for at most so many cases per run (quick tier; x4 thorough)
 # steps = Column.add + IterativeParser.complete calls.  The inputs have at most 10 cells (81 columns); the largest
 # honest parse the generators produce needs ~25 000 steps (exponential-but-finite ambiguity under `{n,}`), the
 # typical one < 500.  A request over the limit is re-judged with the model and a 10x limit before it is reported.
@@ -178,26 +180,35 @@ def prefix_cycle(rules: dict) -> bool:
     return False
 
 
-def model_runs(reals: list[dict], tasks: list[dict], policy: str) -> tuple[list[Optional[dict]], list[Optional[dict]]]:
-    """(core run, generated-policy run) per case (None where the real side gave no grammar); the policy run is only
-    asked where the real parser finished (or diverged outside the class), with fuel proportional to the real meter"""
+def model_runs(reals: list[dict], tasks: list[dict], policy: str, variant: dict,
+               tier: str) -> tuple[list[Optional[dict]], list[Optional[dict]]]:
+    """(core run, generated-variant run) per case (None where the real side gave no grammar).  The variant run is
+    asked where the real parser finished, with fuel proportional to the real meter, and — with the small fuel
+    EXPLOSION_FUEL, for at most N_LOCKSTEP cases — where a forest / first-tree request was stopped by the step meter
+    (the list-based model needs ~1 s per 2000 steps on a chart of a few thousand states)"""
     reqs, where = [], []
+    n_lock = 0
     for i, (t, r) in enumerate(zip(tasks, reals)):
         if "grammar" not in r:
             continue
         m = r.get("meter", {})
-        reqs.append(eio.model_request(r, t, "core", BIG_FUEL))
-        where.append((i, 0))
         st = r["status"]
+        stopped = st in BAD or (r.get("modes") or {}).get("first") in BAD
+        # the core recogniser (theorem C06_recognise_terminates: finishes within stepBound; its chart is polynomial)
+        reqs.append(eio.model_request(r, t, variant, BIG_FUEL, policy="core"))
+        where.append((i, 0))
         if st == "ok" or (st.startswith("exc:") and st != "exc:RecursionError"):
             fuel = 40 * (m.get("adds", 0) + m.get("completes", 0)) + 5000
             if m.get("adds", 0) > 6000:
                 continue                      # too big for the list-based model: counted, not compared
-        elif st in BAD and (policy != "impl" or not t.get("eps_pre")):
-            fuel = 20000
+        elif (stopped or st == "truncated") and "cols" in r and (policy != "impl" or not t.get("eps_pre")):
+            n_lock += 1
+            if n_lock > (N_LOCKSTEP if tier == "quick" else 4 * N_LOCKSTEP):
+                continue
+            fuel = EXPLOSION_FUEL
         else:
             continue
-        reqs.append(eio.model_request(r, t, policy, fuel))
+        reqs.append(eio.model_request(r, t, variant, fuel))
         where.append((i, 1))
     answers = driver_ask("drv_earley", reqs, timeout=1500) if reqs else []
     core: list[Optional[dict]] = [None] * len(tasks)
@@ -306,9 +317,9 @@ def judge_unbounded(run: Run, items: list) -> None:
                           backstop_s=120.0)[0]
         st = rr.get("status") if which == "forest" else (rr.get("modes") or {}).get("prefix")
         if st in ("truncated", "steplimit", "exc:RecursionError"):
-            run.report("C06/unbounded-forest", f"{which} request yields more than {20 * int(t['max_trees'])} trees "
-                       f"({st}) outside the expected classes: input {eio.word_of(t['word'])!r} grammar "
-                       f"{t['spec'].strip()!r}", replay_dict(t, {"class": "outside", "mode": which + "-unbounded"}))
+            # outside the cyclic classes every forest is finite, but a 10-cell input of an ambiguous grammar can have
+            # more trees than any fixed budget (Catalan numbers): counted, not a verdict
+            run.count("undecided:forest_over_20x_tree_budget:" + st)
         else:
             run.count("unbounded:large_finite_forest")
 
@@ -368,31 +379,57 @@ def judge(run: Run, tasks: list[dict], reals: list[dict], core: list, pol: list,
             elif which == "prefix" and pcyc and left_expected:
                 known(run, SIG_PREFIX, what, replay_dict(t, {"class": "prefix_cycle", "mode": "prefix"}))
             else:
-                # outside the expected classes a request over the step limit is either a genuine divergence or an
-                # ambiguity explosion (finite, exponential: e.g. a body that is nullable in two ways under `{1,}` = 20
-                # nested copies).  Decided by a 10x limit on the real code, and for forest / first-tree requests by the
-                # model run with the code's admission policy.
-                # Inside a cyclic class with the cut in place the forests are finite but can be astronomically large
-                # (every acyclic combination of 20 nested nullable copies): the model decides forest / first-tree
-                # requests (if it finishes with the code's policy, so must the code); a prefix request there is
-                # counted, not judged (prefix mode is not modelled).
-                if (eps or pcyc) and which == "prefix":
-                    run.count("undecided:prefix_explosion_inside_cyclic_class")
-                    continue
-                if which != "prefix" and not (mp is not None and mp["status"] in ("done", "raised")):
-                    run.count("undecided:" + which + "_explosion_model_does_not_finish_either")
-                    continue
-                big = {**t, "modes": True, "step_limit": 10 * int(t.get("step_limit") or STEP_LIMIT), "cap_s": 240.0}
+                # A request over the step limit is either a genuine divergence or a finite explosion: the chart of
+                # this parser holds one state per (item, children list), so a grammar that is ambiguous over a span in
+                # many ways (empty-deriving bodies under nested repetitions; finite under the covering cut) makes it
+                # — and the work of `complete` / the loop that ends `predict` — grow polynomially in a number that is
+                # itself exponential in the nesting.  "Finitely many steps" is not refuted by any fixed limit.
+                # Forest / first-tree requests are decided by the MODEL run with the code's variant:
+                #   model finishes in S steps  ->  the real parser must finish within (maxAlts + 2) * S metered steps
+                #                                  (one model step = at most that many Column.add / complete calls);
+                #   model does not finish within its fuel either -> undecided (counted), and the two charts, stopped
+                #                                  at different points, must agree in lock step (prefix comparison).
+                # Prefix requests are not modelled: inside the cyclic classes they are counted, outside them the old
+                # 10x re-run decides (no exponential ambiguity there).
+                if which == "prefix":
+                    if eps or pcyc:
+                        run.count("undecided:prefix_explosion_inside_cyclic_class")
+                        continue
+                    big = {**t, "modes": True, "step_limit": 10 * int(t.get("step_limit") or STEP_LIMIT), "cap_s": 240.0}
 
-                def still(c):
-                    rr = eio.run_pool([{**big, "spec": c["spec"], "word": c["word"]}], workers=1, backstop_s=120.0)[0]
-                    return "grammar" in rr and diverged(rr) == which and not wallclock_only(rr, which)
-                if not still(t):
-                    run.count("diverged:finite_explosion_or_not_reproduced_with_10x_limit")
+                    def still(c):
+                        rr = eio.run_pool([{**big, "spec": c["spec"], "word": c["word"]}], workers=1, backstop_s=120.0)[0]
+                        return "grammar" in rr and diverged(rr) == which and not wallclock_only(rr, which)
+                    if not still(t):
+                        run.count("diverged:finite_explosion_or_not_reproduced_with_10x_limit")
+                        continue
+                    small = shrink(t, still)
+                    run.report("C06/divergence", what + " — prefix request outside the classes hasEpsCycle / prefix_cycle, "
+                               "still over a 10x step limit", replay_dict(small, {"class": "outside", "original": replay_dict(t)}))
                     continue
-                small = shrink(t, still)
-                run.report("C06/divergence", what + " — outside the expected classes (hasEpsCycle / prefix_cycle), "
-                           "still over a 10x step limit", replay_dict(small, {"class": "outside", "original": replay_dict(t)}))
+                if mp is None:
+                    run.count("undecided:" + which + "_explosion_not_sampled_for_the_model")
+                    continue
+                if mp["status"] in ("done", "raised"):
+                    bound = (eio.max_alts(r.get("rules") or {}) + 2) * int(mp["steps"]) + 100
+                    big = {**t, "modes": True, "step_limit": max(bound, int(t.get("step_limit") or STEP_LIMIT)), "cap_s": 240.0}
+                    rr = eio.run_pool([big], workers=1, backstop_s=120.0)[0]
+                    if "grammar" in rr and diverged(rr) in ("forest", "first") and not wallclock_only(rr, diverged(rr)):
+                        run.report("C06/divergence", what + f" — the model of the parser (variant of the source) finishes this "
+                                   f"case in {mp['steps']} steps, the real parser is still running after {big['step_limit']} "
+                                   "metered steps (the bound derived from the model)",
+                                   replay_dict(t, {"class": "model-terminates", "step_limit": big["step_limit"]}))
+                    else:
+                        run.count("diverged:finished_within_model_derived_bound")
+                    continue
+                bad = eio.lockstep_mismatch(mp["cols"], r.get("cols") or [])
+                if bad is not None:
+                    corr_failures.append({"case": replay_dict(t), "what": "lock-step comparison of two unfinished runs: "
+                                          f"the charts differ in column {bad['column']} at position {bad['index']}",
+                                          "model": bad["model"], "real": bad["real"]})
+                else:
+                    run.count("undecided:" + which + "_explosion_model_in_lock_step")
+                    run.count("corr:lockstep_states", sum(min(len(a), len(b)) for a, b in zip(mp["cols"], r.get("cols") or [])))
             continue
         pst = (r.get("modes") or {}).get("prefix")
         if pst == "truncated":
@@ -416,7 +453,14 @@ def judge(run: Run, tasks: list[dict], reals: list[dict], core: list, pol: list,
                 known(run, SIG_KNOWN, f"whole-forest request yields more than {t['max_trees']} trees of an infinite "
                            f"forest: input {eio.word_of(t['word'])!r} grammar {t['spec'].strip()!r}",
                            replay_dict(t, {"class": "hasEpsCycle", "mode": "forest-unbounded"}))
-            elif eps and not (mp is not None and mp["status"] in ("done", "raised")):
+            elif mp is not None and mp["status"] in ("done", "raised"):
+                # the model finished: its forest is the whole forest, the real one must not be larger
+                if len(mp["forest"]) < int(t["max_trees"]):
+                    corr_failures.append({"case": replay_dict(t), "what": f"real parser yields more than {t['max_trees']} "
+                                          f"trees, the model's whole forest has {len(mp['forest'])}"})
+                else:
+                    run.count("forest:large_finite_forest_confirmed_by_model")
+            elif eps:
                 run.count("undecided:large_forest_inside_cyclic_class_model_does_not_finish_either")
             else:
                 unbounded_outside.append((t, "forest"))
@@ -454,11 +498,13 @@ def judge(run: Run, tasks: list[dict], reals: list[dict], core: list, pol: list,
             run.count("corr:equal")
             if eps:
                 run.count("corr:equal_in_class")
-            # meter: far more admissions than (core item space) x (forest size) would be a work explosion
-            space = sum(len(c) for c in mc["cols"]) or 1
-            if r["meter"]["adds"] > 64 * space * max(1, len(mp["forest"])):
-                run.report("C06/work-explosion", f"{r['meter']['adds']} admissions for a core item space of {space} and "
-                           f"{len(mp['forest'])} trees: {t['spec'].strip()!r} on {eio.word_of(t['word'])!r}", replay_dict(t))
+            # meter: one model step is at most (maxAlts + 2) metered operations of the real parser (a `predict` adds
+            # every alternative, `scan_regex` adds two states); more than that is work the model does not have
+            bound = (eio.max_alts(r.get("rules") or {}) + 2) * int(mp["steps"]) + 100
+            if r["meter"]["adds"] + r["meter"]["completes"] > bound:
+                run.report("C06/work-explosion", f"{r['meter']['adds']} admissions + {r['meter']['completes']} completions, "
+                           f"the model needs {mp['steps']} steps (bound {bound}): {t['spec'].strip()!r} on "
+                           f"{eio.word_of(t['word'])!r}", replay_dict(t))
         else:
             run.count("corr:raised_equal")
 
@@ -588,14 +634,16 @@ def main(tier: str) -> int:
     for rf in info["refusals"]:
         lean.broken.append({"module": "Generated.Earley", "reason": "translator refused: " + rf})
     policy = info["policy"] or "impl"
+    variant = info.get("variant") or {"policy": policy, "cap": None, "predDone": True, "aligned": True,
+                                      "wideGuard": True, "emptyRegex": True}
     run.coverage["generated_policy"] = info
     corr_failures: list = []
     undecided: list = []
     unbounded_outside: list = []
     known_reproducer(run, policy)
-    tasks, grammars = make_tasks(run, tier, policy)
+    tasks, grammars = make_tasks(run, tier, policy, variant)
     reals = eio.run_pool(tasks, workers=14, backstop_s=120.0)
-    core, pol = model_runs(reals, tasks, policy)
+    core, pol = model_runs(reals, tasks, policy, variant, tier)
     judge(run, tasks, reals, core, pol, policy, corr_failures, info, undecided, unbounded_outside)
     judge_unbounded(run, unbounded_outside)
     run.coverage["t_parse_phase_s"] = round(run.budget_left(0) * -1, 1)
